@@ -904,6 +904,13 @@ class ApplicationStopJobs(ApplicationJobs):
         if running:
             command.stop()
             return True
+        # NOTE: when the process is already STOPPING there (stop sequence re-planned), no new request is needed
+        #       but the job still has to wait for the process to be stopped before the next sequence is triggered
+        instance_info = command.get_instance_info()
+        if (instance_info and instance_info['state'] == ProcessStates.STOPPING
+                and command.identifier in process.running_identifiers):
+            command.update_sequence_counter()
+            return True
 
 
 class Commander:
